@@ -107,28 +107,29 @@ theorem fixed_next_up_ord (f : MPFixFmt) (x : RF) (hr : f.repr (.fin x) = true) 
            (Fmt.mpfix f).nextDown (.fin x) false = .ok (.fin z) ∧ f.ordRF z = f.ordRF x - 1 :=
   ⟨_, _, (fix_next_up f x hr).1, fix_to_from_ordinal f _, (fix_next_up f x hr).2, fix_to_from_ordinal f _⟩
 
-/-! ### `normalize` of the fixed-point family (defect F2) -/
+/-! ### `normalize` of the fixed-point family (repaired: F2) -/
 
-/-- FULL STATEMENT REFUTED for the faithful model: normalisation of a representable value returns
-the same value in the canonical spelling.  Witness (real code):
-`FixedContext(True,0,8).normalize(Float(c=1,exp=2))` (value 4) returns 0. -/
-theorem fixed_normalize_counterexample :
-    ¬ (∀ (f : MPFixFmt) (x : RF), f.repr (.fin x) = true →
-        ∃ y, f.normalize (.fin x) = .ok (.fin y) ∧ same x y ∧ y.exp = f.expmin) :=
-  fix_normalize_counterexample
+/-- normalisation of a representable value returns the same value and sign in the canonical spelling
+`exp = expmin` (before the repair `FixedContext(True,0,8).normalize(Float(c=1,exp=2))` was 0) -/
+theorem fixed_normalize (f : MPFixFmt) (x : RF) (hr : f.repr (.fin x) = true) :
+    ∃ y, f.normalize (.fin x) = .ok (.fin y) ∧ same x y ∧ y.exp = f.expmin :=
+  fix_normalize f x hr
 
-/-- the same witness through the bounded two's-complement format the user sees -/
+/-- the same through the bounded formats (`MPBFixed`; `Fixed` and `SMFixed` via `FX.mpb` / `SM.mpb`) -/
+theorem fixed_normalize_bounded (F : MPBFixFmt) (x : RF) (hr : F.repr (.fin x) = true) :
+    ∃ y, F.normalize (.fin x) = .ok (.fin y) ∧ same x y ∧ y.exp = F.nmin + 1 :=
+  mpbfix_normalize F x hr
+
+/-- the former witness, now correct -/
 theorem fixed_normalize_witness :
     (FX.mk true 0 8).mpb.repr (.fin ⟨false, 2, 1⟩) = true ∧
-    (FX.mk true 0 8).mpb.normalize (.fin ⟨false, 2, 1⟩) = .ok (.fin ⟨false, 0, 0⟩) := by
+    (FX.mk true 0 8).mpb.normalize (.fin ⟨false, 2, 1⟩) = .ok (.fin ⟨false, 0, 4⟩) := by
   constructor <;> rfl
 
-/-- what is proved: values already on the format's scale (and zeros) are normalised correctly.
-MISSING (false today): operands with `exp ≠ expmin`, where the code shifts the significand the wrong way
-(`fix_normalize_eq`: it returns `c >> off` for `off = exp - expmin > 0` and `c << -off` for `off < 0`). -/
-theorem fixed_normalize_partial (f : MPFixFmt) (x : RF) (h : x.exp = f.expmin ∨ x.c = 0) :
-    ∃ y, f.normalize (.fin x) = .ok (.fin y) ∧ same x y ∧ y.exp = f.expmin :=
-  fix_normalize_partial f x h
+/-- values that are not representable are refused -/
+theorem fixed_normalize_refuses (f : MPFixFmt) (v : FV) (hr : f.repr v = false) :
+    f.normalize v = .error .typeError := by
+  unfold MPFixFmt.normalize; simp [hr]
 
 /-! ## Float ordinals (`MPSFloatFormat`, inherited by `MPBFloat`/`EFloat`/`IEEE`) -/
 
@@ -212,85 +213,54 @@ theorem decoded_ordinal (f : EF) (hv : f.valid = true) (b : Nat) (hb : b < 2 ^ f
 theorem encode_lt (f : EF) (hv : f.valid = true) (v : FV) (b : Nat) (h : f.encode v = .ok b) : b < 2 ^ f.nbits :=
   ef_encode_lt f hv v b h
 
-/-! ### every decoded value is representable (defect F15) -/
+/-! ### every decoded value is representable (repaired: F15) -/
 
-/-- FULL STATEMENT REFUTED for the faithful model.  Witness (real code):
-`EFloatFormat(0, 2, False, MAX_VAL, 0)`: `decode(1)` is NaN, `representable_in(NaN)` is False. -/
-theorem decode_repr_counterexample :
-    ¬ (∀ (f : EF) (b : Nat) (v : FV), f.valid = true → b < 2 ^ f.nbits → f.decode b = .ok v → f.repr v = true) := by
-  intro h
-  have := h ⟨0, 2, false, .maxVal, 0⟩ 1 (.nan false) (by decide) (by decide) (by rfl)
-  revert this; decide
-
-/-- what is proved: finite decoded values are always representable; a decoded NaN/∞ is representable
-exactly when `has_nonzero()` holds.  MISSING (false today): NaN/∞ of the formats without a non-zero
-finite value (`nbits ≤ 2`), where `representable_in` falls through to `has_nonzero()`. -/
-theorem decode_repr_partial (f : EF) (hv : f.valid = true) (b : Nat) (hb : b < 2 ^ f.nbits) :
-    ∃ v, f.decode b = .ok v ∧ (v.isNar = false → f.repr v = true) ∧ (v.isNar = true → f.repr v = f.hasNonzero) :=
+/-- every pattern decodes to a value the format calls representable — finite, ±∞ and NaN alike,
+down to the 1- and 2-bit formats that have no non-zero finite value -/
+theorem decode_repr (f : EF) (hv : f.valid = true) (b : Nat) (hb : b < 2 ^ f.nbits) :
+    ∃ v, f.decode b = .ok v ∧ f.repr v = true :=
   ef_decode_repr f hv b hb
 
 /-- `has_nonzero()` is exact: it holds iff the layout has a non-zero finite code -/
 theorem has_nonzero_exact (f : EF) (hv : f.valid = true) : f.hasNonzero = decide (1 ≤ efGmax f) :=
   ef_hasNonzero f hv
 
-/-! ### encode ∘ decode (defects F15, F16) -/
+/-- representability of the special values is what the format parameters say -/
+theorem repr_specials (f : EF) (s : Bool) :
+    f.repr (.inf s) = f.inf ∧ f.repr (.nan s) = !(f.kind == .none) :=
+  ⟨ef_repr_inf f s, ef_repr_nan f s⟩
 
-/-- FULL STATEMENT REFUTED: every pattern is the encoding of what it decodes to (up to NaN payload).
-Witness (real code): `EFloatFormat(2, 3, True, MAX_VAL, 0)`: `decode(2)` is +∞ and `encode(+∞)` is 3,
-the NaN pattern. -/
-theorem encode_decode_counterexample :
-    ¬ (∀ (f : EF) (b : Nat) (v : FV), f.valid = true → b < 2 ^ f.nbits → f.decode b = .ok v → v.isNan = false →
-        f.encode v = .ok b) := by
-  intro h
-  have h1 := h ⟨2, 3, true, .maxVal, 0⟩ 2 (.inf false) (by decide) (by decide) (by rfl) rfl
-  have h2 : (EF.mk 2 3 true .maxVal 0).encode (.inf false) = .ok 3 := by rfl
-  rw [h2] at h1; injection h1 with h1; revert h1; decide
+/-! ### encode ∘ decode (repaired: F15, F16) -/
 
-/-- what is proved: every finite pattern round-trips exactly; ±∞ patterns round-trip and NaN patterns
-encode to a NaN pattern whenever the code accepts them (`has_nonzero`, see F15), ±∞ outside
-MAX_VAL formats with a one-bit significand.  MISSING (false today): ±∞ of MAX_VAL formats with
-`nbits - es = 1` (the mantissa bit `1` is OR-ed into the exponent field and makes the NaN code);
-NaN/∞ of formats with `nbits ≤ 2` (F15: `encode` refuses them). -/
-theorem encode_decode_partial (f : EF) (hv : f.valid = true) (b : Nat) (hb : b < 2 ^ f.nbits) :
+/-- every pattern is the encoding of what it decodes to, up to NaN payloads: finite and ±∞ patterns
+exactly; a NaN pattern encodes to a NaN pattern -/
+theorem encode_decode (f : EF) (hv : f.valid = true) (b : Nat) (hb : b < 2 ^ f.nbits) :
     ∃ v, f.decode b = .ok v ∧
-      (v.isNar = false → f.encode v = .ok b) ∧
-      (v.isInf = true → f.hasNonzero = true → ¬ (f.kind = .maxVal ∧ f.pmax = 1) → f.encode v = .ok b) ∧
-      (v.isNan = true → f.hasNonzero = true →
-        ∃ b' t, f.encode v = .ok b' ∧ b' < 2 ^ f.nbits ∧ f.decode b' = .ok (.nan t)) :=
+      (v.isNan = false → f.encode v = .ok b) ∧
+      (v.isNan = true → ∃ b' t, f.encode v = .ok b' ∧ b' < 2 ^ f.nbits ∧ f.decode b' = .ok (.nan t)) :=
   ef_encode_decode f hv b hb
 
-/-! ### decode ∘ encode (defects F16, F17) -/
+/-- the former F16 witness: `EFloatFormat(2, 3, True, MAX_VAL, 0)`, pattern 2 = +∞ -/
+theorem encode_decode_witness :
+    (EF.mk 2 3 true .maxVal 0).decode 2 = .ok (.inf false) ∧
+    (EF.mk 2 3 true .maxVal 0).encode (.inf false) = .ok 2 := by
+  constructor <;> rfl
 
-/-- FULL STATEMENT REFUTED: encoding a representable value and decoding it back gives the same value.
-Witness (real code): `EFloatFormat(2, 4, False, NEG_ZERO, 0)` (and `FP8P1…7`, `S1E4M3`, `S1E5M2`):
-`encode(Float(isnan=True))` is 0, which decodes to +0 — and `round(nan)` produces exactly that NaN. -/
-theorem decode_encode_counterexample :
-    ¬ (∀ (f : EF) (v : FV), f.valid = true → f.repr v = true →
-        ∃ b w, f.encode v = .ok b ∧ f.decode b = .ok w ∧ sameFV v w) := by
-  intro h
-  obtain ⟨b, w, h1, h2, h3⟩ := h ⟨2, 4, false, .negZero, 0⟩ (.nan false) (by decide) (by decide)
-  have e1 : (EF.mk 2 4 false .negZero 0).encode (.nan false) = .ok 0 := by rfl
-  rw [e1] at h1; injection h1 with h1; subst h1
-  have e2 : (EF.mk 2 4 false .negZero 0).decode 0 = .ok (.fin ⟨false, -1, 0⟩) := by rfl
-  rw [e2] at h2; injection h2 with h2; subst h2
-  exact h3
+/-! ### decode ∘ encode (repaired: F16, F23) -/
 
-/-- the F16 witness also refutes it: `decode(encode(+∞))` is NaN -/
-theorem decode_encode_inf_witness :
-    (EF.mk 2 3 true .maxVal 0).repr (.inf false) = true ∧
-    (EF.mk 2 3 true .maxVal 0).encode (.inf false) = .ok 3 ∧
-    (EF.mk 2 3 true .maxVal 0).decode 3 = .ok (.nan false) := by
-  refine ⟨by decide, by rfl, by rfl⟩
-
-/-- what is proved: for every representable value (any `(exp, c)` spelling, ±0, ±∞, NaN) `encode` gives a
-pattern in range whose decoding is the same value with the same sign (NaN ↦ NaN).
-MISSING (false today): ±∞ in MAX_VAL formats with `nbits - es = 1` (F16); a NaN whose sign bit is clear in
-NEG_ZERO formats, which is encoded as `+0` (F17). -/
-theorem decode_encode_partial (f : EF) (hv : f.valid = true) (v : FV) (hr : f.repr v = true)
-    (h16 : ¬ (v.isInf = true ∧ f.kind = .maxVal ∧ f.pmax = 1))
-    (h17 : ¬ (f.kind = .negZero ∧ v = .nan false)) :
+/-- for every representable value — any `(exp, c)` spelling of a finite number, ±0, ±∞, NaN of either
+sign — `encode` gives a pattern in range whose decoding is the same value with the same sign
+(NaN ↦ NaN, payload and sign of NaN not observed) -/
+theorem decode_encode (f : EF) (hv : f.valid = true) (v : FV) (hr : f.repr v = true) :
     ∃ b w, f.encode v = .ok b ∧ b < 2 ^ f.nbits ∧ f.decode b = .ok w ∧ sameFV v w :=
-  ef_decode_encode f hv v hr h16 h17
+  ef_decode_encode f hv v hr
+
+/-- the former F23 witness: a NaN with clear sign bit in a NEG_ZERO format takes the code `1|0…0` -/
+theorem decode_encode_witness :
+    (EF.mk 2 4 false .negZero 0).repr (.nan false) = true ∧
+    (EF.mk 2 4 false .negZero 0).encode (.nan false) = .ok 8 ∧
+    (EF.mk 2 4 false .negZero 0).decode 8 = .ok (.nan true) := by
+  refine ⟨by decide, by rfl, by rfl⟩
 
 /-! ### normalisation of the float family -/
 
@@ -334,7 +304,7 @@ example : (MPSFmt.mk 3 (-2) true true).reprRF ⟨true, -5, 12⟩ = true ∧ (MPS
   decide
 
 example : (EF.mk 4 8 false .negZero 2).valid = true ∧ (EF.mk 4 8 false .negZero 2).repr (.fin ⟨true, -3, 5⟩) = true ∧
-    ¬ ((FV.fin ⟨true, -3, 5⟩).isInf = true ∧ NanKind.negZero = NanKind.maxVal ∧ (EF.mk 4 8 false .negZero 2).pmax = 1) := by
+    (EF.mk 0 2 false .maxVal 0).valid = true ∧ (EF.mk 0 2 false .maxVal 0).repr (.nan false) = true := by
   decide
 example : (EF.mk 5 16 true .ieee 0).hasNonzero = true ∧ efGmax (EF.mk 5 16 true .ieee 0) = 31743 := by decide
 
